@@ -49,9 +49,11 @@ Section Phase2.
   Variables (E : list nat) (ks : list (nat * (Z * Z))) (st1 : sess).
   Definition P2 (x : nat) : obj :=
     match ks_find x ks with
-    | Some (old, _) => o_in (o_key (objs st1 x) (Some old)) (negb (mem x E))
+    | Some (old, _) => if mem x E then objs st1 x else o_in (o_key (objs st1 x) (Some old)) true
     | None => objs st1 x
     end.
+  (* the expunged objects are outside the identity map *)
+  Hypothesis HE : forall x, mem x E = true -> oin (objs st1 x) = false.
   (* no two objects end up in the identity map under one key *)
   Hypothesis Hinj : forall x y, x < nobj st1 -> y < nobj st1 -> oin (P2 x) = true -> oin (P2 y) = true ->
     okey (P2 x) = okey (P2 y) -> okey (P2 x) <> None -> x = y.
@@ -72,6 +74,17 @@ Section Phase2.
           cbn in Hx. rewrite orb_false_r in Hx. apply Nat.eqb_eq in Hx. subst. auto.
         - intros x Hx Hk. rewrite mem_app in Hx. apply orb_false_elim in Hx. destruct Hx. auto. }
     assert (Ho : objs s o = objs st1 o \/ objs s o = o_in (objs st1 o) false) by (apply H2; congruence).
+    assert (Ndone : forall x, mem x (done ++ [o]) = mem x done || Nat.eqb x o).
+    { intros x. rewrite mem_app. cbn. rewrite orb_false_r. reflexivity. }
+    destruct (mem o E) eqn:EE.
+    { (* expunged: transient again, nothing to restore *)
+      split; [exact SR|]. split.
+      + intros x Hx. destruct (Nat.eqb_spec x o).
+        * subst. unfold P2. rewrite Ek, EE. destruct Ho as [Ho|Ho]; [exact Ho|]. rewrite Ho.
+          pose proof (HE o EE) as X. destruct (objs st1 o); cbn in *; subst; reflexivity.
+        * apply H1. rewrite Ndone in Hx. destruct Hx as [Hx|Hx]; auto.
+          apply orb_prop in Hx. destruct Hx as [Hx|Hx]; auto. apply Nat.eqb_eq in Hx. congruence.
+      + intros x Hx Hk. rewrite Ndone in Hx. apply orb_false_elim in Hx. destruct Hx as [Hx1 Hx2]. auto. }
     cbv zeta.
     remember (mod_obj (safe_discard o s) o (fun ob => o_key ob (Some old))) as s2 eqn:Es2.
     assert (Os2 : objs s2 o = o_key (o_in (objs st1 o) false) (Some old)).
@@ -80,17 +93,7 @@ Section Phase2.
     assert (Os2' : forall x, x <> o -> objs s2 x = objs s x).
     { intros x Hx. subst s2. rewrite objs_mod_other by auto. unfold safe_discard. rewrite objs_mod_other; auto. }
     assert (SR2 : same_rest s2 st1). { eapply same_rest_trans; [|exact SR]. subst s2. repeat split. }
-    assert (Ndone : forall x, mem x (done ++ [o]) = mem x done || Nat.eqb x o).
-    { intros x. rewrite mem_app. cbn. rewrite orb_false_r. reflexivity. }
-    destruct (mem o E) eqn:EE.
-    - (* expunged: not put back *)
-      split; [exact SR2|]. split.
-      + intros x Hx. destruct (Nat.eqb_spec x o).
-        * subst. rewrite Os2. unfold P2. rewrite Ek, EE. reflexivity.
-        * rewrite Os2'; auto. apply H1. rewrite Ndone in Hx. destruct Hx as [Hx|Hx]; auto.
-          apply orb_prop in Hx. destruct Hx as [Hx|Hx]; auto. apply Nat.eqb_eq in Hx. congruence.
-      + intros x Hx Hk. rewrite Ndone in Hx. apply orb_false_elim in Hx. destruct Hx as [Hx1 Hx2].
-        apply Nat.eqb_neq in Hx2. rewrite Os2'; auto.
+    destruct (Nat.eq_dec 0 0) as [_|]; [|congruence].
     - (* put back under the old key *)
       unfold im_replace.
       assert (P2o : P2 o = o_in (o_key (objs st1 o) (Some old)) true). { unfold P2. rewrite Ek, EE. reflexivity. }
